@@ -420,6 +420,14 @@ func ruleFeedFuncOnlyForPolledLogs(w *World, r *Run, rule string) {
 						}
 					}
 					scan(outermost(fn))
+					// … or in another function of the same package (the table is filled by a helper)
+					if !guarded {
+						for _, of := range w.prodFns() {
+							if of.Parent() == nil && pkgPathOf(of) == pkgPathOf(fn) && of != outermost(fn) {
+								scan(of)
+							}
+						}
+					}
 				}
 				if guarded {
 					continue
@@ -461,6 +469,10 @@ func ruleFetchFailsOnlyOnTransport(w *World, r *Run, rule string) {
 			e := w.engine(4, 1)
 			for _, s := range e.Explore(f) {
 				if s.Trunc != "" || s.Panic || len(s.Rets) != 2 || s.Rets[1] == nil || s.Rets[1].Kind == "nil" {
+					continue
+				}
+				// an error handed on from a call as it is (return f(path)) is that call's failure
+				if !neverNil(s.Rets[1]) && s.Rets[1].Kind == "call" {
 					continue
 				}
 				n++
